@@ -46,6 +46,9 @@ package api
 //@   ensures[missing] ispost(ctx) && jok(b, otpGenerateReq) && sec == "" ==> respstatus(ctx) == 400
 //@   ensures[maps] ok && jnum(b, "timestamp") > 0 && b32ok(sec) ==> respstatus(ctx) == 200 && jnum(respbody(ctx), "timestamp") == jnum(b, "timestamp") &&
 //@ |   jstr(respbody(ctx), "code") == hotp(algoof(jstr(b, "algorithm")), b32key(sec), jnum(b, "timestamp") / (jnum(b, "period") == 0 ? 30 : jnum(b, "period")), digitsof(jstr(b, "digits")))
+//@   ensures[now] ok && jnum(b, "timestamp") <= 0 && b32ok(sec) ==> respstatus(ctx) == 200 && nowcalls == 1 && jnum(respbody(ctx), "timestamp") == nowunix &&
+//@ |   jstr(respbody(ctx), "code") == hotp(algoof(jstr(b, "algorithm")), b32key(sec), nowunix / (jnum(b, "period") == 0 ? 30 : jnum(b, "period")), digitsof(jstr(b, "digits")))
+//@   ensures[clock] ok && jnum(b, "timestamp") > 0 ==> nowcalls == 0
 //@   ensures[fails] ok && !b32ok(sec) ==> respstatus(ctx) == 500
 //@   ensures[once] respnbody(ctx) == 1
 
@@ -99,6 +102,10 @@ package api
 //@   ensures[missing] ispost(ctx) && jok(b, otpValidateReq) && !(sec != "" && trim(jstr(b, "code")) != "") ==> respstatus(ctx) == 400
 //@   ensures[maps] ok && jnum(b, "timestamp") > 0 ==> respstatus(ctx) == 200 && (jbool(respbody(ctx), "valid") <==> (s <= 10 && b32ok(sec) && len(jstr(b, "code")) == d &&
 //@ |   exists j in -10..10 :: -s <= j && j <= s && jstr(b, "code") == hotp(a, b32key(sec), n + j, d)))
+//@   ensures[nowcall] ok && jnum(b, "timestamp") <= 0 ==> respstatus(ctx) == 200 && nowcalls == 1
+//@   ensures[now] ok && jnum(b, "timestamp") <= 0 && nowunix / p >= min(s, 10) ==> (jbool(respbody(ctx), "valid") <==> (s <= 10 && b32ok(sec) && len(jstr(b, "code")) == d &&
+//@ |   exists j in -10..10 :: -s <= j && j <= s && jstr(b, "code") == hotp(a, b32key(sec), nowunix / p + j, d)))
+//@   ensures[clock] ok && jnum(b, "timestamp") > 0 ==> nowcalls == 0
 //@   ensures[once] respnbody(ctx) == 1
 
 // ---- secrets, suites --------------------------------------------------------
@@ -111,7 +118,7 @@ package api
 //@   ensures[method] !isget(ctx) ==> respstatus(ctx) == 405
 //@   ensures[maps] isget(ctx) && respstatus(ctx) == 200 ==> jstr(respbody(ctx), "secret") == b32nopad(sub(rng, rngpos0, rngpos0 + hlen(a))) &&
 //@ |   jstr(respbody(ctx), "algorithm") == algname(a) && rngpos == rngpos0 + hlen(a)
-//@   ensures[status] isget(ctx) ==> respstatus(ctx) == 200 || respstatus(ctx) == 500
+//@   ensures[status] isget(ctx) ==> respstatus(ctx) == 200
 //@   ensures[once] respnbody(ctx) == 1
 
 //@ func api.listOCRASuites$1(ctx)
@@ -310,7 +317,7 @@ package api
 //@   ensures[once] postpath(p) || getpath(p) ==> respnbody(ctx) == 1
 //@   ensures[hotpgen] p == "/hotp/generate" && ispost(ctx) && jok(b, otpGenerateReq) && trim(jstr(b, "secret")) != "" && b32ok(jstr(b, "secret")) ==> respstatus(ctx) == 200 &&
 //@ |   jstr(respbody(ctx), "code") == hotp(algoof(jstr(b, "algorithm")), b32key(jstr(b, "secret")), jnum(b, "counter"), digitsof(jstr(b, "digits")))
-//@   ensures[secret] p == "/otp/secret" && isget(ctx) ==> respstatus(ctx) == 200 || respstatus(ctx) == 500
+//@   ensures[secret] p == "/otp/secret" && isget(ctx) ==> respstatus(ctx) == 200
 
 // ---- middleware (safety only) -----------------------------------------------------
 
